@@ -222,6 +222,10 @@ def run(ctx):
         open(os.path.join(os.path.dirname(wide), 'scheme.yaml'), 'w').write('patterns: []\n')
         txt = open(spec).read()
         open(wide, 'w').write(re.sub(r'range: \[[^\]]*\]', 'range: [20.0 K, 4000.0 K]', txt))
+        for j in est_jobs(ctx, spec, {'groups': list(names[spec].values())}, 2):
+            j['copied_then_widened'] = wide
+            j['Ts'] = sorted(set(j['Ts'] + [25.0, 3500.0, 1234.5]))
+            jobs.append(j)
         for j in est_jobs(ctx, spec, {'groups': list(names[spec].values())}, 3):
             j['update_from'] = wide
             j['Ts'] = sorted(set(j['Ts'] + [25.0, 3500.0, 1234.5]))
